@@ -134,11 +134,14 @@ func runBatch(obs []*Oblig, timeoutS int, all bool) {
 			sem <- struct{}{}
 			defer func() { <-sem }()
 			to := timeoutS
+			if j.obs[0].Cover && to > 3 {
+				to = 3
+			}
 			if j.obs[0].TimeMul > 1 {
 				to *= j.obs[0].TimeMul
 			}
 			best, allr := RunScript(j.obs[0].Name, j.sc, to, all)
-			if best.Result != "unsat" && !j.obs[0].NoSlice && !j.obs[0].Soft {
+			if best.Result != "unsat" && !j.obs[0].NoSlice && !j.obs[0].Soft && !j.obs[0].Cover {
 				// the cone-of-influence slice may have dropped the facts that make this path infeasible:
 				// retry once with every hypothesis of the path
 				o0 := j.obs[0]
@@ -199,6 +202,7 @@ func Discharge(obs []*Oblig, timeoutS int, all bool) []*ObResult {
 	}
 	runBatch(hard, timeoutS, all)
 	// aggregate
+	coverSeen := map[string]*coverAgg{}
 	byName := map[string]*ObResult{}
 	var order []string
 	for _, o := range obs {
@@ -232,11 +236,34 @@ func Discharge(obs []*Oblig, timeoutS int, all bool) []*ObResult {
 			}
 			continue
 		}
+		if o.Cover {
+			// expected: sat (or undecided) on at least one path of each case. If every explored return path of a case
+			// is unsat, the hypotheses are contradictory and everything proved under them is vacuous.
+			key := o.Name + "|" + o.Pattern
+			if coverSeen[key] == nil {
+				coverSeen[key] = &coverAgg{}
+			}
+			ca := coverSeen[key]
+			ca.n++
+			if o.Res.Result != "unsat" {
+				ca.feasible = true
+			}
+			ca.last = o
+			ca.res = r
+			continue
+		}
 		if o.Res.Result != "unsat" {
 			r.Status = "failed"
 			if r.Worst == nil || (r.Worst.Res.Result != "sat" && o.Res.Result == "sat") {
 				r.Worst = o
 			}
+		}
+	}
+	for _, ca := range coverSeen {
+		if !ca.feasible {
+			ca.res.Status = "failed"
+			ca.res.Worst = ca.last
+			ca.last.Info = "VACUOUS (every return path of this case is infeasible): " + ca.last.Info
 		}
 	}
 	var out []*ObResult
@@ -250,7 +277,7 @@ func fmtDur(d time.Duration) string { return fmt.Sprintf("%.1fs", d.Seconds()) }
 
 // hypMatch: the goal (or each of its conjuncts) is literally one of the hypotheses.
 func hypMatch(o *Oblig) bool {
-	if o.Soft || len(o.Lemmas) > 0 {
+	if o.Soft || len(o.Lemmas) > 0 || o.Cover {
 		return false
 	}
 	hs := map[*Term]bool{}
@@ -282,4 +309,11 @@ func hypMatch(o *Oblig) bool {
 		return false
 	}
 	return ok(o.Goal)
+}
+
+type coverAgg struct {
+	n        int
+	feasible bool
+	last     *Oblig
+	res      *ObResult
 }
